@@ -20,6 +20,7 @@ import (
 	"bytes"
 	"context"
 	"crypto/sha256"
+	"encoding/binary"
 	"encoding/hex"
 	"errors"
 	"io"
@@ -476,6 +477,23 @@ func (a *oauth2IntrospectionAuthenticator) calculateCacheKey(ep *endpoint.Endpoi
 	digest.Write(ep.Hash())
 	digest.Write(stringx.ToBytes(templatedURL))
 	digest.Write(stringx.ToBytes(token))
+	digest.Write(ttlHash(a.ttl))
 
 	return hex.EncodeToString(digest.Sum(nil))
+}
+
+// ttlHash makes the configured cache ttl part of a cache key, so that entries are shared only between
+// rules which agree on how long a cached object may be reused.
+func ttlHash(ttl *time.Duration) []byte {
+	const int64BytesCount = 8
+
+	if ttl == nil {
+		return []byte{0}
+	}
+
+	ttlBytes := make([]byte, int64BytesCount+1)
+	ttlBytes[0] = 1
+	binary.LittleEndian.PutUint64(ttlBytes[1:], uint64(*ttl))
+
+	return ttlBytes
 }
